@@ -46,8 +46,8 @@ def analyse(ctx: CheckContext, p: Program):
     # Stream
     derived.check_derived(ctx, r, st, invariant_props=["CP", "t_min", "t_max", "t_min_star", "t_max_star", "htr"],
                           base_props=["t_supply", "t_target", "heat_flow", "dt_cont", "htc"])
-    helpers = derived.check_shift_direction(ctx, r, st)
-    derived.check_helper_guards(ctx, r, st, helpers)
+    groups = derived.check_shift_direction(ctx, r, st)
+    derived.check_helper_guards(ctx, r, st, groups)
 
 
 def run(ctx: CheckContext):
